@@ -11,7 +11,7 @@ THEOREMS += [("FlatModel.Props.C15b", t) for t in (
     "FC.C15.wrapped_eq", "FC.C15.wrapped_cmp", "FC.C15.wrapped_cmp_arms", "FC.C15.wrapped_eq_cmp_indep", "FC.C15.wrapped_cmp_borrowAs", "FC.C15.huffman_items_cmp", "FC.C15.huffman_item_cmp_borrowed", "FC.C15.huffman_pushed_items_eq", "FC.C15.symsCmp_lawful", "FC.C15.symsCmp_lawful_nested", "FC.C15.wrapped_cmp_refl", "FC.C15.wrapped_cmp_eq_iff", "FC.C15.wrapped_cmp_antisymm", "FC.C15.wrapped_cmp_swap", "FC.C15.wrapped_cmp_trans", "FC.C15.wrapped_eq_iff_cmp_eq", "FC.Wrapped.sliceCmp_eq", "FC.Wrapped.sliceEq_eq")]
 THEOREMS += [("FlatModel.Props.C14c", t) for t in (
     "FC.C14.huffman_cmpItems", "FC.C14.wrappedOK_cmp", "FC.C14.slice_wrappedOK_cmp", "FC.C14.iterEqBy_total", "FC.C14.iterCmpBy_total")]
-PROFILES = {"quick": ["checked"], "thorough": ["checked", "wrapping"], "search": ["checked"]}
+PROFILES = {"quick": ["checked", "wrapping"], "thorough": ["checked", "wrapping"], "search": ["checked"]}
 RULE = ("all pairs of items drawn from small value domains (prefixes of one another, equal content in different representations "
         "and different regions, different lengths) on every entry whose read item is Ord, including Huffman items across raw "
         "containers and containers encoded with two different codes over the same symbols; expected ==, cmp and partial_cmp computed from the owned values by the reference lexicographic order; "
